@@ -35,7 +35,9 @@ def one(d):
         c = subprocess.run(['/verif/vcheck', pid, '--no-evidence'], env=dict(os.environ, VERIF_REPO=wt),
                            capture_output=True, text=True)
         v = [l for l in c.stdout.splitlines() if l.startswith('VIOLATION')]
-        return name, 'caught' if c.returncode == 1 and v else 'MISSED (exit %d)' % c.returncode, (v or [''])[0][:160]
+        if c.returncode == 1 and v:
+            return name, 'caught', v[0][:160]
+        return name, 'MISSED (exit %d)' % c.returncode, (c.stdout.strip().splitlines() or [c.stderr[-300:]])[-1][:300]
     finally:
         subprocess.run(['git', '-C', '/repo', 'worktree', 'remove', '--force', wt], capture_output=True)
 
@@ -45,7 +47,7 @@ dirs = [d for d in sorted(glob.glob('/verif/seeded/*')) if os.path.exists(os.pat
 missed = 0
 with concurrent.futures.ThreadPoolExecutor(jobs) as ex:
     for name, verdict, first in ex.map(one, dirs):
-        print('%-70s %s' % (name, verdict), flush=True)
+        print('%-70s %s%s' % (name, verdict, '' if verdict == 'caught' else '   ' + first), flush=True)
         if verdict != 'caught':
             missed += 1
 subprocess.run(['git', '-C', '/repo', 'worktree', 'prune'])
